@@ -1,76 +1,154 @@
 """C10 — the series index is exact: one stable id per series, predicates match precisely.
 Mode A: TLC exhaustively checks specs/SeriesIndex.tla: the life cycle (Create with lookup-before-create, IndexFlush,
-ClearCache, Close/Reopen) for KeyIdBijection / NamespacesConsistent / CacheSound, and the predicate set algebra over
-the tag->ids items against brute-force evaluation (SearchExact: unanchored regex, absent tag = empty string) for every
-set of <= N series.
+ClearCache, Close/Reopen, Search sequences that leave the pooled searcher in either state) for KeyIdBijection /
+NamespacesConsistent / CacheSound / SearchExact in every state (history independence: a search is a function of index
+contents and predicate only), the predicate set algebra over the tag->ids items against brute-force evaluation
+(SearchExact: unanchored regex, absent tag = empty string) for every set of <= N series, and the multiplicity / row
+model (series standing for several members, tag->ids rows of RowCap ids; ListingsExact with conditions).
 Mode B: TLC-generated behaviours (every BFS path of a small configuration, scripted rich series sets with every leaf
-and design tree, seeded simulation with random trees to depth 3) are replayed into a real tsi merge-set index opened
-through the engine's production load path; after every action the id of every known series key is looked up, and every
-Search is compared on all production entry points (SHOW path ids and keys, SELECT path, Engine.SeriesKeys / TagKeys /
-TagValues) with the specification's set. A divergence is attributed to an open finding only if the real result equals
-the prediction of that finding's deviation model (computed by the specification per subset of deviation classes)."""
+and design tree and history sequences, scripted sets with multiplicities 1/63/64/65/130 over flush/close/reopen,
+seeded simulation with random trees to depth 3, repeated searches and random multiplicities) are replayed into a real
+tsi merge-set index opened through the engine's production load path, every behaviour in one process with one P so
+that pooled searchers are reused; after every action the id of every known series key is looked up, and every Search
+of a sequence is compared on all production entry points (SHOW path ids and keys, SELECT path alone / every leaf alone /
+again in sequence order, Engine.SeriesKeys / TagKeys / TagValues with the condition) with the specification's set.
+A divergence is attributed to an open finding only if the real result equals the prediction of that finding's
+deviation model (computed by the specification per subset of deviation classes); anything else is a VIOLATION."""
 import json, os, random, time
+import concurrent.futures as cf
 import vlib
 
 PROP = "C10"
-DEVS_LIFE = ["neq_absent_nonmatch", "or_as_and", "idgen_restart", "lookup_misses_pending", "drop_tag_items"]
-DEVS_SEARCH = ["S", "L", "E", "C", "EN"]
+# (deviation cfg suffix, invariant TLC must report)
+DEVS_LIFE = [("neq_absent_nonmatch", None), ("or_as_and", None), ("idgen_restart", None), ("lookup_misses_pending", None),
+             ("drop_tag_items", None), ("stale_allmatch_flag", "SearchExact"), ("stale_allmatch_flag.hi", "HistoryIndependent")]
+DEVS_SEARCH = [("S", None), ("L", None), ("E", None), ("C", None), ("EN", None), ("cond_listing_first_row", "ListingsExact")]
+DEVS_QUICK = [("neq_absent_nonmatch", None), ("S", None), ("stale_allmatch_flag", "SearchExact"),
+              ("cond_listing_first_row", "ListingsExact")]
+MODE_A = ("exh", "sets", "rows", "sets_deep", "sets_full")
+NSIM = 3
+EXPORTS = ("bfs_export", "script_export", "big_export") + tuple(f"sim{i}" for i in range(NSIM))
+# the replay runs every behaviour in a process with ONE P: sync.Pool then hands the searcher object that served a
+# search to the next search of the sequence (pooled state really is reused), and a saved replay is deterministic
+VH_ENV = {"GOMAXPROCS": "1"}
 
 
 def _stats(r):
     return {k: r[k] for k in ("generated", "distinct", "depth", "wall_s")}
 
 
-def gen_behaviours(tier, seed):
-    stats = {}
+def _tlc_jobs(tier, seed):
     thorough = tier == "thorough"
-    # ---- Mode A: design checks
-    runs = [("exh", "SeriesIndex.exh.thorough.cfg" if thorough else "SeriesIndex.exh.quick.cfg"),
-            ("sets", "SeriesIndex.sets.thorough.cfg" if thorough else "SeriesIndex.sets.quick.cfg")]
+    nsim = 2500 if thorough else 150
+    # exports first (the replay starts as soon as they are there); the simulation is single-threaded: three runs
+    jobs = [(f"sim{i}", dict(cfg="SeriesIndex.sim.cfg", simulate=nsim // NSIM, depth=14, seed=seed * 1000 + i, timeout=3000))
+            for i in range(NSIM)]
+    jobs += [
+        ("bfs_export", dict(cfg="SeriesIndex.bfs.export.cfg", workers=4, timeout=1200)),
+        ("script_export", dict(cfg="SeriesIndex.script.export.cfg", workers=4, timeout=1200)),
+        ("big_export", dict(cfg="SeriesIndex.big.export.cfg", workers=2, timeout=1200)),
+        ("exh", dict(cfg="SeriesIndex.exh.thorough.cfg" if thorough else "SeriesIndex.exh.quick.cfg", workers=8, timeout=3000)),
+        ("sets", dict(cfg="SeriesIndex.sets.thorough.cfg" if thorough else "SeriesIndex.sets.quick.cfg", workers=8, timeout=3000)),
+        ("rows", dict(cfg="SeriesIndex.rows.thorough.cfg" if thorough else "SeriesIndex.rows.quick.cfg", workers=4, timeout=3000)),
+    ]
     if thorough:
-        runs += [("sets_deep", "SeriesIndex.sets.deep.cfg"), ("sets_full", "SeriesIndex.sets.full.cfg")]
-    for name, cfg in runs:
-        r = vlib.run_tlc("SeriesIndexMC", cfg, timeout=3000)
-        vlib.tlc_must_pass(r, cfg)
-        stats[name] = _stats(r)
-        stats[name]["cfg"] = cfg
-    # ---- self-test of the specification: every deviation must be refuted by TLC
-    devs = DEVS_LIFE + DEVS_SEARCH if thorough else ["neq_absent_nonmatch", "S"]
-    stats["deviations_refuted"] = {}
-    for d in devs:
-        cfg = f"SeriesIndex.dev.{d}.cfg"
-        r = vlib.run_tlc("SeriesIndexMC", cfg, timeout=900)
+        jobs += [("sets_deep", dict(cfg="SeriesIndex.sets.deep.cfg", workers=8, timeout=3000)),
+                 ("sets_full", dict(cfg="SeriesIndex.sets.full.cfg", workers=8, timeout=3000))]
+    for d, inv in (DEVS_LIFE + DEVS_SEARCH if thorough else DEVS_QUICK):
+        jobs.append(("dev:" + d, dict(cfg=f"SeriesIndex.dev.{d}.cfg", workers=4, timeout=900, expect=inv)))
+    return jobs, nsim
+
+
+def _run_job(name, kw):
+    kw = dict(kw)
+    kw.pop("expect", None)
+    cfg = kw.pop("cfg")
+    return vlib.run_tlc("SeriesIndexMC", cfg, **kw)
+
+
+def _check_job(name, kw, r, stats):
+    cfg = kw["cfg"]
+    if name.startswith("dev:"):
+        d = name[4:]
         if r.get("timeout") or not r["violated"]:
             raise vlib.Infra(f"deviation {d} is not refuted by TLC (the invariants are vacuous?): {r['error']}\n" + r["out"][-2000:])
+        if kw.get("expect") and r["violated"] != kw["expect"]:
+            raise vlib.Infra(f"deviation {d}: TLC reports {r['violated']} violated, the counterexample expected is one of {kw['expect']}")
         stats["deviations_refuted"][d] = r["violated"]
-    # ---- Mode B generators
-    behaviours = []
-    r1 = vlib.run_tlc("SeriesIndexMC", "SeriesIndex.bfs.export.cfg", workers=4, timeout=1200)
-    vlib.tlc_must_pass(r1, "SeriesIndex.bfs.export.cfg")
-    bfs = r1["traces"]
-    nb = 6000 if thorough else 1000
-    if len(bfs) > nb:
-        bfs = random.Random(seed).sample(bfs, nb)
-    behaviours += bfs
-    stats["bfs_export"] = {"generated": r1["generated"], "traces": len(r1["traces"]), "replayed": len(bfs)}
-    r2 = vlib.run_tlc("SeriesIndexMC", "SeriesIndex.script.export.cfg", workers=4, timeout=1200)
-    vlib.tlc_must_pass(r2, "SeriesIndex.script.export.cfg")
-    behaviours += r2["traces"]
-    stats["script_export"] = {"generated": r2["generated"], "traces": len(r2["traces"])}
-    nsim = 2500 if thorough else 150
-    r3 = vlib.run_tlc("SeriesIndexMC", "SeriesIndex.sim.cfg", simulate=nsim, depth=14, seed=seed, timeout=3000)
-    vlib.tlc_must_pass(r3, "SeriesIndex.sim.cfg")
-    sim = r3["traces"]
-    if thorough and len(sim) > 9000:
-        sim = random.Random(seed).sample(sim, 9000)
-    behaviours += sim
-    stats["sim"] = {"generated": r3["generated"], "traces": len(r3["traces"]), "replayed": len(sim), "num": nsim}
-    return behaviours, stats
+        return
+    vlib.tlc_must_pass(r, cfg)
+    if name in MODE_A:
+        stats[name] = _stats(r)
+        stats[name]["cfg"] = cfg
+
+
+class _Gen:
+    """TLC runs of one check, at most five JVMs at a time (exports first); the replay may start while the design
+    checks are still running, the verdict is given only after all of them passed."""
+
+    def __init__(self, tier, seed):
+        os.environ.setdefault("JAVA_TOOL_OPTIONS", "-Xmx4g")
+        self.tier, self.seed = tier, seed
+        self.jobs, self.nsim = _tlc_jobs(tier, seed)
+        self.stats = {"deviations_refuted": {}}
+        self.pool = cf.ThreadPoolExecutor(5)
+        self.futs = [(n, kw, self.pool.submit(_run_job, n, kw)) for n, kw in self.jobs]
+
+    def behaviours(self):
+        thorough = self.tier == "thorough"
+        res = {}
+        for n, kw, f in self.futs:
+            if n in EXPORTS:
+                res[n] = f.result()
+                vlib.tlc_must_pass(res[n], kw["cfg"])
+        rnd = random.Random(self.seed)
+        behaviours = []
+        bfs = res["bfs_export"]["traces"]
+        nb = 6000 if thorough else 1000
+        if len(bfs) > nb:
+            bfs = rnd.sample(bfs, nb)
+        behaviours += bfs
+        self.stats["bfs_export"] = {"generated": res["bfs_export"]["generated"], "traces": len(res["bfs_export"]["traces"]), "replayed": len(bfs)}
+        for n in ("script_export", "big_export"):
+            behaviours += res[n]["traces"]
+            self.stats[n] = {"generated": res[n]["generated"], "traces": len(res[n]["traces"])}
+        sim = [h for i in range(NSIM) for h in res[f"sim{i}"]["traces"]]
+        nall = len(sim)
+        if thorough and len(sim) > 9000:
+            sim = rnd.sample(sim, 9000)
+        behaviours += sim
+        self.stats["sim"] = {"generated": sum(res[f"sim{i}"]["generated"] for i in range(NSIM)), "traces": nall, "replayed": len(sim),
+                             "num": (self.nsim // NSIM) * NSIM, "runs": NSIM}
+        return behaviours
+
+    def finish(self):
+        """Mode A and the self-test of the specification must pass (else exit 2)"""
+        try:
+            for n, kw, f in self.futs:
+                if n in EXPORTS:
+                    continue
+                _check_job(n, kw, f.result(), self.stats)
+        finally:
+            self.pool.shutdown(wait=False, cancel_futures=True)
+        return self.stats
+
+    def abort(self):
+        self.pool.shutdown(wait=False, cancel_futures=True)
+
+
+def gen_behaviours(tier, seed):
+    g = _Gen(tier, seed)
+    try:
+        b = g.behaviours()
+    except BaseException:
+        g.abort()
+        raise
+    return b, g.finish()
 
 
 def replay_cases(cases, seed):
     vh = vlib.build_vh()
-    results, errs = vlib.run_vh_parallel(vh, ["replay-index"], cases)
+    results, errs = vlib.run_vh_parallel(vh, ["replay-index"], cases, env=VH_ENV)
     if errs:
         raise vlib.Infra(f"harness process failed: {errs[0]}")
     if len(results) != len(cases):
@@ -79,22 +157,41 @@ def replay_cases(cases, seed):
 
 
 def _search_shapes(behaviours):
-    """distinct (predicate, series set) evaluations and distinct predicates among the Search steps"""
-    preds, evals = set(), 0
+    """distinct predicates, evaluations, repeated searches and behaviours with large multiplicities"""
+    preds, evals, repeats, bigb, members = set(), 0, 0, 0, 0
     for h in behaviours:
+        big = False
         for st in h:
+            if st["a"] == "Create" and st["exp"]["x"].get("new") == 1:
+                n = st["exp"]["x"].get("n", 1)
+                members += n
+                big = big or n >= 63
             if st["a"] == "Search":
+                seen = set()
                 for q in st["exp"]["x"]:
+                    k = q["m"] + json.dumps(q["p"], sort_keys=True)
                     preds.add(json.dumps(q["p"], sort_keys=True))
                     evals += 1
-    return len(preds), evals
+                    repeats += k in seen
+                    seen.add(k)
+        bigb += big
+    return len(preds), evals, repeats, bigb, members
 
 
 def run(tier, seed):
     t0 = time.time()
-    behaviours, stats = gen_behaviours(tier, seed)
-    cases = [{"id": i, "seed": seed, "hist": h} for i, h in enumerate(behaviours)]
-    results = replay_cases(cases, seed)
+    g = _Gen(tier, seed)
+    try:
+        behaviours = g.behaviours()
+        vlib.log(f"[c10] {len(behaviours)} behaviours exported after {time.time()-t0:.0f}s")
+        cases = [{"id": i, "seed": seed, "hist": h} for i, h in enumerate(behaviours)]
+        results = replay_cases(cases, seed)
+        vlib.log(f"[c10] replay done after {time.time()-t0:.0f}s")
+    except BaseException:
+        g.abort()
+        raise
+    stats = g.finish()
+    vlib.log(f"[c10] design checks and deviation runs done after {time.time()-t0:.0f}s")
     infra = [r for r in results if r.get("infra")]
     if infra:
         raise vlib.Infra(f"harness infra error: {infra[0]}")
@@ -120,23 +217,29 @@ def run(tier, seed):
     for r in bad[:5]:
         path = vlib.save_replay(PROP, {"case": byid[r["id"]], "result": r})
         print(f"VIOLATION property={PROP} replay={path}")
-        vlib.log(r["detail"])
+        vlib.log(r["detail"][:3000])
     distinct = len({json.dumps(h, sort_keys=True) for h in behaviours})
-    npreds, nevals = _search_shapes(behaviours)
+    npreds, nevals, nrepeats, nbig, nmembers = _search_shapes(behaviours)
     sample = lambda h: [{"a": st["a"], "args": st["args"]} for st in h][:14]
     cov = {
-        "states": sum(stats[k]["distinct"] for k in stats if k in ("exh", "sets", "sets_deep", "sets_full")),
-        "transitions": sum(stats[k]["generated"] for k in stats if k in ("exh", "sets", "sets_deep", "sets_full")),
+        "states": sum(stats[k]["distinct"] for k in stats if k in MODE_A),
+        "transitions": sum(stats[k]["generated"] for k in stats if k in MODE_A),
         "traces_validated_against_impl": len(results),
         "samples": [sample(behaviours[0]), sample(behaviours[-1])] if behaviours else [],
         "exhaustive": True,
         "evaluations": sum(r["searches"] for r in results), "distinct_nontrivial": npreds,
-        "rule": "evaluations = (measurement, predicate) searches executed on the real index, each compared on 6 entry points; "
-                "distinct_nontrivial = distinct predicate trees among them (every leaf of the family, the design trees of "
-                "depth 2, random parser-producible trees to depth 3); behaviours = all BFS paths of the small export "
-                "config (sampled in the quick tier) + scripted series sets + seeded simulation",
+        "rule": "evaluations = (measurement, predicate) searches of the search sequences executed on the real index, each compared on "
+                "the SHOW path, SearchSeriesKeys, the SELECT path (alone, every leaf alone, again in sequence order), Engine.SeriesKeys/"
+                "TagKeys/TagValues; distinct_nontrivial = distinct predicate trees among them (every leaf of the family, the design trees of "
+                "depth 2, random parser-producible trees to depth 3, member-tag leaves); behaviours = all BFS paths of the small export "
+                "config (sampled in the quick tier) + scripted series sets (leaf/tree chunks and history sequences) + scripted sets with "
+                "multiplicities 1/63/64/65/130 + seeded simulation",
         "tlc": stats,
         "predicate_evaluations_in_behaviours": nevals,
+        "repeated_searches_in_sequences": nrepeats,
+        "behaviours_with_large_multiplicity": nbig,
+        "concrete_series_created": nmembers,
+        "history_dependent_explained_answers": sum(r.get("histdep", 0) for r in results),
         "entry_point_results_compared": sum(r["compared"] for r in results),
         "id_lookups_compared": sum(r["lookups"] for r in results),
         "distinct_behaviours": distinct,
@@ -145,11 +248,12 @@ def run(tier, seed):
         "steps_replayed": sum(len(h) for h in behaviours),
     }
     vlib.write_evidence(PROP, tier, seed, "model_checking", cov, time.time() - t0, len(bad), [
-        "TLC bounds as in the cfg files named under coverage.tlc (2 measurements, 2 tag keys, <= 9 tag values, 23 regular expressions, <= 6 series, <= 5 per measurement)",
-        "real tsi merge-set index of one shard opened through Engine.Open/Assign; series created by writing points (line-protocol parser -> WriteRows -> CreateIndexIfNotExists)",
+        "TLC bounds as in the cfg files named under coverage.tlc (2 measurements, 2 tag keys, <= 9 tag values, 23 regular expressions, <= 6 series, <= 5 per measurement; multiplicities {1,2,3} with rows of 2 ids in the design check of the row model)",
+        "real tsi merge-set index of one shard opened through Engine.Open/Assign; series created by writing points (line-protocol parser -> WriteRows -> CreateIndexIfNotExists); a series with multiplicity n is written as n points in one request, the members differ in one extra tag (0..n-1); replayed multiplicities 1, 63, 64, 65, 130 (tag->ids rows hold 64 ids)",
         "characters, tag keys and measurement names drawn per case from the seed (commas, equals signs, spaces, quotes, backslashes, regex metacharacters, unicode, the index's separator bytes \\x01/\\x02; \\x00 cannot be written in InfluxQL)",
         "the index is flushed (DebugFlush) before a search, as the property allows; conditions prepared as the store does for SHOW (ParseExpr, ConditionExpr, tags typed) and as the compiler does for SELECT (RewriteRegexConditions)",
-        "at most 5 series per measurement, so the cost-based pruning of search.go:seriesByTagFilters (cost/len > 10) is never taken",
+        "every behaviour is replayed by one process with GOMAXPROCS=1, the searches of a sequence one after the other, so the pooled searcher objects (indexSearchPool) are reused from search to search; concurrent searches are out of scope (C04)",
+        "row consolidation is the real one (flush of the in-memory items, merge at close/reopen); the specification's row model (consecutive rows of RowCap ids) is used for the mutation seed only, the replay compares listings with the set semantics",
         "tag arrays, column store, series deletion (C13) and concurrent writers (C04) are out of scope",
     ])
     return 1 if bad else 0
@@ -163,7 +267,7 @@ def replay(path, seed):
         raise vlib.Infra(r["infra"])
     if not r["ok"]:
         print(f"VIOLATION property={PROP} replay={path}")
-        vlib.log(r["detail"])
+        vlib.log(r["detail"][:3000])
         return 1
     for kid, ex in (r.get("known_ex") or {}).items():
         print(f"KNOWN-FINDING: property={PROP} {kid} {ex[:400]}")
